@@ -119,8 +119,8 @@ theorem ceS_refl (x : Rat) : ceS x x = true := by
 
 theorem ceG_refl (x : Rat) : ceG x x = true := by simp [ceG, ceS_refl]
 
-theorem freeze_eq (n : Nat) (f : Nat → Rat) {i : Nat} (hi : i < n) : freeze n f i = f i := by
-  simp [freeze, List.getD, hi]
+theorem thaw_freezeL (n : Nat) (f : Nat → Rat) {i : Nat} (hi : i < n) : thaw (freezeL n f) i = f i := by
+  simp [thaw, freezeL, List.getD, hi]
 
 /-! ### the dense sampler -/
 
